@@ -94,6 +94,36 @@ func churnScripts(n int) [][]Stim {
 	return out
 }
 
+// secondLifeScripts: a publication is reused after Publication.Close.  Every sequence of length n over
+// {Subscribe a new one, Publish, Publication.Close, close the OLDEST handle - also a stale one from before a
+// Publication.Close -} after one initial subscriber, then a drain.  Nothing may survive the Close and leak into
+// the second life (ids, counters, contexts, caches): the new subscribers get every message published while they
+// are subscribed exactly once, an old handle's Close is a no-op.
+func secondLifeScripts(n int) [][]Stim {
+	mk := func(k int) Stim {
+		f := []filt{filtNil, filt{1, 1, 0}, filtEven, filtNil}[k%4]
+		return sub(1+k%3, f.fk, f.mod, f.rem, 2, k%2 == 1, k%3 == 0)
+	}
+	var out [][]Stim
+	var rec func(st []Stim, total, nextStale, left int, closedPub bool)
+	rec = func(st []Stim, total, nextStale, left int, closedPub bool) {
+		if left == 0 {
+			if closedPub { // only sequences that contain a Publication.Close
+				out = append(out, append([]Stim(nil), st...))
+			}
+			return
+		}
+		rec(append(st, mk(total)), total+1, nextStale, left-1, closedPub)
+		rec(append(st, pubS(0)), total, nextStale, left-1, closedPub)
+		rec(append(st, closePubS), total, nextStale, left-1, true)
+		if nextStale < total {
+			rec(append(st, closeS(nextStale)), total, nextStale+1, left-1, closedPub)
+		}
+	}
+	rec([]Stim{mk(0)}, 1, 0, n, false)
+	return out
+}
+
 // callbackCloseScripts: OnTimeout / OnFiltered callbacks that call Subscriber.Close or Publication.Close from
 // inside the callback.  Every subscriber has a filter (FMod 1 0 accepts everything) so that the visits of a
 // Publish are observed; a run in which such a Close overlaps another Publish is discarded as timing-ambiguous.
@@ -167,6 +197,10 @@ func genC06(tier string, rng *rand.Rand) []Script {
 	// a subscriber closes itself from inside its filter / OnFiltered while Publish is walking the subscribers
 	for _, st := range reentrantCloseScripts(map[string]int{"quick": 3, "thorough": 4}[tier]) {
 		add("reentrant-close", st)
+	}
+	// the publication is closed and used again (second life), old handles are closed late
+	for _, st := range secondLifeScripts(map[string]int{"quick": 5, "thorough": 6}[tier]) {
+		add("second-life", st)
 	}
 	// subscribers closed, new ones created, older ones keep receiving
 	for _, st := range churnScripts(map[string]int{"quick": 4, "thorough": 6}[tier]) {
@@ -264,6 +298,10 @@ func genC15(tier string, rng *rand.Rand) []Script {
 	}
 	for _, st := range slowFilterScripts() {
 		add("slow-filter", st)
+	}
+	// the publication is closed and used again; handles of the first life are closed afterwards
+	for _, st := range secondLifeScripts(map[string]int{"quick": 4, "thorough": 5}[tier]) {
+		add("second-life", st)
 	}
 	// callbacks that close their subscriber / the publication from inside the callback
 	for _, st := range callbackCloseScripts(rng, map[string]int{"quick": 3, "thorough": 4}[tier], map[string]int{"quick": 2, "thorough": 3}[tier]) {
@@ -380,6 +418,9 @@ func genC10(tier string, rng *rand.Rand) []Script {
 			}
 		}
 	}
+	for _, st := range secondLifeScripts(map[string]int{"quick": 4, "thorough": 5}[tier]) {
+		add("second-life", st)
+	}
 	// Close from inside OnTimeout / OnFiltered (of the own subscriber, of the publication)
 	for _, st := range callbackCloseScripts(rng, map[string]int{"quick": 3, "thorough": 4}[tier], map[string]int{"quick": 2, "thorough": 3}[tier]) {
 		add("callback-close", st)
@@ -494,11 +535,11 @@ func scopeText(prop, tier string, n int) string {
 		if tier == "thorough" {
 			return fmt.Sprintf("%d scripts: every Publish/TryReceive sequence of length 8 for one subscriber (buffer 0,1,2 x no filter/even filter), every sequence of length 6 over {Publish,TryReceive s0,TryReceive s1} for 4 two-subscriber configurations, 3000 random scripts (2-4 subscribers, buffers 0-3, six filter kinds, callbacks present or nil, late subscriber); each followed by a drain", n)
 		}
-		return fmt.Sprintf("%d scripts: every Publish/TryReceive sequence of length 5 for one subscriber (buffer 0,1,2 x no filter / even filter+OnFiltered+OnTimeout), a 12-subscriber matrix of filter x OnFiltered x OnTimeout, 8 slow-filter scripts (100ms filter next to a 60ms timeout), reentrant-close scripts (a filter predicate / OnFiltered callback closes its own subscriber inside Publish), the option order of every Subscribe a seeded permutation, churn (every sequence of length %d over {Subscribe, close oldest, close newest, Publish} after two subscribers), every sequence of length 4 over {Publish,TryReceive s0,TryReceive s1} for 4 two-subscriber configurations, 120 random scripts (2-4 subscribers, buffers 0-3, six filter kinds, callbacks present or nil, late subscriber); each followed by a drain", n, 4)
+		return fmt.Sprintf("%d scripts: every Publish/TryReceive sequence of length 5 for one subscriber (buffer 0,1,2 x no filter / even filter+OnFiltered+OnTimeout), a 12-subscriber matrix of filter x OnFiltered x OnTimeout, 8 slow-filter scripts (100ms filter next to a 60ms timeout), reentrant-close scripts (a filter predicate / OnFiltered callback closes its own subscriber inside Publish), second-life scripts (every sequence over {Subscribe, Publish, Publication.Close, close the oldest - possibly stale - handle} containing a Publication.Close), the option order of every Subscribe a seeded permutation, churn (every sequence of length %d over {Subscribe, close oldest, close newest, Publish} after two subscribers), every sequence of length 4 over {Publish,TryReceive s0,TryReceive s1} for 4 two-subscriber configurations, 120 random scripts (2-4 subscribers, buffers 0-3, six filter kinds, callbacks present or nil, late subscriber); each followed by a drain", n, 4)
 	case "C15":
-		return fmt.Sprintf("%d scripts: the two F11 witnesses, 60ms-vs-60s and 60ms-vs-160ms timeout pairs, zero and negative (-1s) timeouts (3 fixed scripts + every sequence of length %d over {Publish,TryReceive,Advance} each), Publish x12 into full buffers; 25 option orders of one subscriber; another subscriber's 100ms filter next to a 60ms timeout; the option order of EVERY Subscribe is a seeded permutation; callbacks that call Subscriber.Close / Publication.Close from inside OnTimeout / OnFiltered; every sequence of length %d over {Publish,TryReceive,Advance} for one subscriber with a 60ms timeout and both callbacks (buffer 0,1); every sequence of length %d over {Publish,TryReceive s0,TryReceive s1,Advance} for 3 two-subscriber configurations (s0 60ms, s1 60s); seeded random scripts (2-4 subscribers, buffers 0-2, timeouts 60ms/160ms/60s/0/-1s, callbacks present or nil); each followed by Advance + drain + a settled marker", n, map[string]int{"quick": 3, "thorough": 4}[tier], map[string]int{"quick": 4, "thorough": 5}[tier], map[string]int{"quick": 3, "thorough": 4}[tier])
+		return fmt.Sprintf("%d scripts: the two F11 witnesses, 60ms-vs-60s and 60ms-vs-160ms timeout pairs, zero and negative (-1s) timeouts (3 fixed scripts + every sequence of length %d over {Publish,TryReceive,Advance} each), Publish x12 into full buffers; 25 option orders of one subscriber; second-life scripts (publication reused after Close, stale handles closed late); another subscriber's 100ms filter next to a 60ms timeout; the option order of EVERY Subscribe is a seeded permutation; callbacks that call Subscriber.Close / Publication.Close from inside OnTimeout / OnFiltered; every sequence of length %d over {Publish,TryReceive,Advance} for one subscriber with a 60ms timeout and both callbacks (buffer 0,1); every sequence of length %d over {Publish,TryReceive s0,TryReceive s1,Advance} for 3 two-subscriber configurations (s0 60ms, s1 60s); seeded random scripts (2-4 subscribers, buffers 0-2, timeouts 60ms/160ms/60s/0/-1s, callbacks present or nil); each followed by Advance + drain + a settled marker", n, map[string]int{"quick": 3, "thorough": 4}[tier], map[string]int{"quick": 4, "thorough": 5}[tier], map[string]int{"quick": 3, "thorough": 4}[tier])
 	case "C10":
-		return fmt.Sprintf("%d scripts: the F16 witness (Subscribe(0); Publish(1); Close) for Publication.Close and Subscriber.Close, a buffer-kept script, and for each of %d base scripts (1-3 subscribers, buffers 0-3, deliveries pending / buffered / timed out) a Close of each subscriber, of the publication, twice, both, and at two different positions injected at EVERY position; Close called from inside OnTimeout / OnFiltered callbacks; seeded random scripts with closes anywhere and subscribers joining after a close; each followed by a drain and a settled marker", n, map[string]int{"quick": 5, "thorough": 7}[tier])
+		return fmt.Sprintf("%d scripts: the F16 witness (Subscribe(0); Publish(1); Close) for Publication.Close and Subscriber.Close, a buffer-kept script, and for each of %d base scripts (1-3 subscribers, buffers 0-3, deliveries pending / buffered / timed out) a Close of each subscriber, of the publication, twice, both, and at two different positions injected at EVERY position; Close called from inside OnTimeout / OnFiltered callbacks; second-life scripts; seeded random scripts with closes anywhere and subscribers joining after a close; each followed by a drain and a settled marker", n, map[string]int{"quick": 5, "thorough": 7}[tier])
 	}
 	return ""
 }
